@@ -154,6 +154,9 @@ var (
 	selRand         Rand // choice among the ready cases of a select
 	atomicDemotions int
 	slotPressure    bool
+	sandwichSlot    int32 = -1
+	sandwichLeft    int
+	highPrio        int64
 	// consecutive block() calls since the last event that can unblock somebody
 	sinceProgress int64
 
@@ -194,6 +197,7 @@ func Start(cfg *SchedConfig) {
 	selRand = Rand{s: mix64(cfg.PrioSeed ^ cfg.RWSeed*0x9e3779b97f4a7c15 ^ 0x73656c656374)}
 	waitSeq, sinceProgress, atomicDemotions = 0, 0, 0
 	slotPressure = false
+	sandwichSlot, sandwichLeft, highPrio = -1, 0, math.MaxInt64/2+1
 	hiSlot = 1
 	for i := range wgKeys {
 		wgKeys[i] = 0
@@ -838,8 +842,30 @@ func YieldAtomic(site int32) {
 			return
 		}
 	case StratPrio:
-		if prioRule >= PrioRandom && atomicDemotions < 16 && selRand.Uint64()&3 == 0 {
+		if prioRule < PrioRandom {
+			break
+		}
+		// "Sandwich": a task is set aside right after one of its atomic operations and
+		// brought back - ahead of everybody - right after the k-th atomic operation of
+		// other tasks (k drawn from 1..3): the A-B-A interleavings around lock-free
+		// code that priority change points placed by step count practically never hit.
+		if sandwichSlot == curSlot {
+			sandwichSlot = -1
+		}
+		if sandwichSlot >= 0 && slotState[sandwichSlot] == stRunnable {
+			sandwichLeft--
+			if sandwichLeft <= 0 {
+				back := sandwichSlot
+				sandwichSlot = -1
+				highPrio++
+				slotPrio[back] = highPrio
+				resched(site, RYield)
+				return
+			}
+		} else if atomicDemotions < 16 && selRand.Uint64()&3 == 0 {
 			atomicDemotions++
+			sandwichSlot = curSlot
+			sandwichLeft = 1 + int(selRand.Uint64()%3)
 			slotPrio[curSlot] = lowPrio
 			lowPrio--
 			resched(site, RYield)
